@@ -1,7 +1,7 @@
 //@ unit: C13.record_addresses
 //@ props: C13
 //@ source: src/dap/yadap/session/breakpoint.rs
-//@ fn: DebugSession::handle_set_function_breakpoints, DebugSession::handle_set_breakpoints (the match arm that records an installed breakpoint)
+//@ fn: DebugSession::handle_set_function_breakpoints, DebugSession::handle_set_breakpoints (the match arm that records an installed breakpoint), DebugSession::handle_set_instruction_breakpoints (both arms)
 //@ assume: the debugger installed one location per returned view (a line or function in generic / inlined code has several); the arm is spliced verbatim (header included) into a composing `match`; `json!`, the id closure (`alloc_id()` -> ext fn on the counter) and `views.iter().map(|view| view.addr).collect()` are outlined (the latter with the contract: the addresses of ALL views, in order); Vec::remove / vec! per vstd
 //@ notcovered: the other arms (nothing installed), options parsing, the events queued
 use vstd::prelude::*;
@@ -64,6 +64,27 @@ fn record_src_bp(views: Result<Vec<BpView>, DbgErr>, options: Options, line: u64
     match views {
         /*@@SPLICE:F_src_arm*/
         _ => {}
+    }
+}
+//@ end_fn
+
+//@ extract: impl DebugSession / fn handle_set_instruction_breakpoints
+//@   fragment: `Ok(view) => { let id = alloc_id();` .. `^} } } self.next_breakpoint_id = next_id;`
+//@   splice: F_insn_arms
+//@   rewrite W_id: `alloc_id()` => `outline_alloc_id(next_id)`
+//@   outline O_json: `json!($x)` => `outline_json()`
+//@ end
+
+//@ begin_fn: src/dap/yadap/session/breakpoint.rs :: handle_set_instruction_breakpoints [arms: installed / refused]
+fn record_insn_bp(installed_one: Result<BpView, DbgErr>, options: Options, next_id: &mut i64, new_breakpoints: &mut Vec<BreakpointRecord>, rsp_bps: &mut Vec<JsonV>, pending_events: &mut Vec<InternalEvent>)
+    ensures
+        final(new_breakpoints)@.len() == old(new_breakpoints)@.len() + 1, /*@@E_insn_one_record*/
+        installed_one is Ok ==> final(new_breakpoints)@.last().addresses@ =~= seq![installed_one->Ok_0.addr], /*@@E_insn_location*/
+        // a breakpoint the debugger refused owns no location: a later stop at ANY address is never attributed to it
+        installed_one is Err ==> final(new_breakpoints)@.last().addresses@.len() == 0, /*@@E_insn_refused_owns_nothing*/
+{
+    match installed_one {
+        /*@@SPLICE:F_insn_arms*/
     }
 }
 //@ end_fn
